@@ -187,6 +187,9 @@ def slot_rules(ctx):
 
 
 def run(ctx):
+    from . import e2e_rules as _e2e
+
+    ctx.attempt(_e2e.assembly_rule, ctx, 'R3.E1')
     ctx.attempt(csr_assembly_rule, ctx)
     ctx.attempt(pattern_structure_rule, ctx)
     from ..shared import memo_result_escape_rule as _memo_result_escape_rule
